@@ -863,6 +863,11 @@ fn write_replay<P: Prop>(p: &P, opt: &Options, run: u64, seq: &[P::Case], v: &Vi
         "note": "minimised case; every scheduling decision, fault and datum is explicit. Replay: bin/check --replay <this file>",
         "case": p.to_json(last),
     });
+    if let Ok(a) = std::env::var("SIMCHECK_AFFINITY") {
+        // the run was made under a restricted CPU affinity (a second configuration of the same check):
+        // bin/check --replay re-applies it
+        doc["cpu_affinity"] = json!(a);
+    }
     if seq.len() > 1 {
         doc["executed_before_on_the_same_thread"] = Value::Array(seq[..seq.len() - 1].iter().map(|c| p.to_json(c)).collect());
         doc["note"] = json!("the case fails only after the cases listed under executed_before_on_the_same_thread have run on the same OS thread (state kept by the system under test between calls); the replay executes them in order on one fresh thread");
